@@ -218,7 +218,7 @@ func checkC16(r *Run) {
 
 	// ---- r6: recorded assumption -----------------------------------------------------
 	npx := 0
-	for _, fa := range db.Fields {
+	for _, fa := range m.fields() {
 		if fa.Key == "p9.fidRef.pendingXattr" && fa.Write && !m.isUnpublished(fa, m.resolver(fa.Root).str(fa.Sel.X)) {
 			npx++
 		}
@@ -432,7 +432,6 @@ var c16Guards = map[string]string{
 }
 
 func c16GuardedBy(r *Run, m *ServerModel) {
-	db := m.DB
 	info := m.Info
 	type agg struct {
 		status, detail string
@@ -440,7 +439,7 @@ func c16GuardedBy(r *Run, m *ServerModel) {
 	}
 	res := map[string]*agg{}
 	counts := map[string]int{}
-	for _, fa := range db.Fields {
+	for _, fa := range m.fields() {
 		g, ok := c16Guards[fa.Key]
 		if !ok || fa.St.Dead {
 			continue
